@@ -27,7 +27,7 @@ Theorem C03_traceback_iff : forall requires_met cfg oc s i p rs' out last hf wan
   let s' := step requires_met cfg oc s i p in
   (ExcMatches (flags_of rs') last msg ->
      r_end s' = E_running /\ r_failed s' = r_failed s /\ r_executed s' = r_executed s ++ [i] /\
-     r_unmatched s' = r_unmatched s) /\
+     r_unmatched s' = []) /\            (* like every passing check, it ends the window of unmatched output (fix F25) *)
   (~ ExcMatches (flags_of rs') last msg -> fails_with s' i F_gotwant).
 Proof. exact step_raise_traceback. Qed.
 Print Assumptions C03_traceback_iff.
